@@ -345,7 +345,7 @@ class EStream(Engine):
         bad = False
         st, b = call(lambda: s.bin)
         st2, L = call(len, s)
-        pos = getattr(s, '_pos', None)
+        pos = (kernel.get_pos(s) if kernel.is_stream(s) else None)
         if st != 'ok' or b != self.B or st2 != 'ok' or L != len(self.B):
             incs.append(self.inc(f'{op}|{trig}|content-mismatch', want=self.B[:300], got=canon(b) if st != 'ok' else b[:300]))
             bad = True
@@ -671,11 +671,11 @@ class EStream(Engine):
             if not ok:
                 incs.append(self.inc(f'{op}|{fam}|wrong-return', got=canon(got), want=chunk[:200]))
                 return
-            if hasattr(got, '_pos'):
+            if kernel.is_stream(got):
                 if got is self.s:
                     incs.append(self.inc(f'{op}|{fam}|returned-self'))
-                elif got._pos != 0:
-                    incs.append(self.inc(f'{op}|{fam}|new-object-pos-nonzero', pos=got._pos))
+                elif kernel.get_pos(got) != 0:
+                    incs.append(self.inc(f'{op}|{fam}|new-object-pos-nonzero', pos=kernel.get_pos(got)))
             return
         if type(got) is not type(exp) or canon(got) != canon(exp):
             incs.append(self.inc(f'{op}|{fam}|wrong-return', got=canon(got), want=canon(exp), bits=chunk[:200]))
@@ -1040,7 +1040,7 @@ class EStream(Engine):
         else:
             st, val = call(lambda: self.s[:keep])
             self.B = B[:keep]
-            if st != 'ok' or not hasattr(val, '_pos'):
+            if st != 'ok' or not kernel.is_stream(val):
                 incs.append(self.inc('new|slice-prefix|raised', exc=canon(val)))
                 self.p = 0
                 self._rebuild()
@@ -1151,7 +1151,7 @@ class EStream(Engine):
         s = self.s
         st, val = call(self._mut_call, s, ev, o_s, o2_s, True)
         tst, tval = call(self._mut_call, twin, ev, o_t, o2_t, False)
-        if st == 'ok' and op in ('iadd', 'ilshift', 'irshift', 'imul', 'iand', 'ior', 'ixor') and hasattr(val, '_pos') and val is not s:
+        if st == 'ok' and op in ('iadd', 'ilshift', 'irshift', 'imul', 'iand', 'ior', 'ixor') and kernel.is_stream(val) and val is not s:
             incs.append(self.inc(f'{op}|-|in-place-operator-returned-new-object'))
         if st != 'ok' and exc_is(val, *INTERNAL) and not exc_is(val, 'ValueError', 'IndexError', 'TypeError'):
             self.probe('monitor:mutator-raised:' + kernel.exc_name(val))
@@ -1214,7 +1214,7 @@ class EStream(Engine):
             if L1 == L0 and p and self.p == p:
                 self.probe('pos kept by length-preserving mutator')
         self._note_state('mut:' + op, st)
-        return {'st': st, 'v': canon(val) if st == 'ok' and not hasattr(val, '_pos') else (None if st == 'ok' else kernel.exc_name(val))}, incs
+        return {'st': st, 'v': canon(val) if st == 'ok' and not kernel.is_stream(val) else (None if st == 'ok' else kernel.exc_name(val))}, incs
 
     # ---- property assignment -----------------------------------------------------------------------------
     @staticmethod
@@ -1350,11 +1350,11 @@ class EStream(Engine):
                 incs.append(self.inc(f'{op}|{trig}|result-depends-on-pos', at_pos=strip(cv), at_zero=strip(cr)))
             objs = val if isinstance(val, list) else [val]
             for o in objs:
-                if hasattr(o, '_pos') and kernel.is_bits(o):
+                if kernel.is_stream(o) and kernel.is_bits(o):
                     if o is s:
                         self.probe('call returned the stream itself')
-                    elif o._pos != 0:
-                        incs.append(self.inc(f'{op}|{trig}|new-object-pos-nonzero', pos=o._pos))
+                    elif kernel.get_pos(o) != 0:
+                        incs.append(self.inc(f'{op}|{trig}|new-object-pos-nonzero', pos=kernel.get_pos(o)))
                         break
             if p:
                 self.probe('new object from positioned stream')
@@ -1389,8 +1389,8 @@ class EStream(Engine):
             h1, h2, h3 = call(hash, s), call(hash, t), call(hash, self.cls(bin=B))
             if h1[0] != 'ok' or h2[0] != 'ok' or h1[1] != h2[1] or h3 != h1:
                 incs.append(self.inc(f'hash|{trig}|hash-depends-on-pos', st=[h1[0], h2[0], h3[0]]))
-        if t._pos != q:
-            incs.append(self.inc(f'eq|{trig}|operand-pos-moved', pos=t._pos, want=q))
+        if kernel.get_pos(t) != q:
+            incs.append(self.inc(f'eq|{trig}|operand-pos-moved', pos=kernel.get_pos(t), want=q))
         if p != q:
             self.probe('eq/hash against other position')
         self._post(incs, 'eq', trig, (p,))
@@ -1996,7 +1996,7 @@ class EStream(Engine):
         if kernel.is_bits(o):
             if o is getattr(self, 's', None):
                 return 's'
-            pos = f', pos={o._pos}' if getattr(o, '_pos', 0) else ''
+            pos = f', pos={kernel.get_pos(o)}' if (kernel.get_pos(o) if kernel.is_stream(o) else 0) else ''
             return f"{type(o).__name__}(bin='{o.bin}'{pos})"
         if isinstance(o, slice):
             return f'slice({o.start!r}, {o.stop!r}, {o.step!r})'
